@@ -31,6 +31,10 @@ for i, c in enumerate(CRATES3):
         _c14.append(H(f"c14::{c}::c14_net_{s}", t if s != "10" else "quick",
                       f"SubnetFilter: {s[0]} Ipv4Network::new(any addr, 0..=32) + {s[1]} Ipv6Network::new(any addr, 0..=128), side flags, endpoints symbolic",
                       "matches() == CIDR oracle; config(subnet only) == rule"))
+    for k, what in (("ip", "IpFilter"), ("net", "SubnetFilter")):
+        _c14.append(H(f"c14::{c}::c14_{k}mix_11", "quick" if c == "tcp" else "thorough",
+                      f"{what}: 1 IPv4 + 1 IPv6 element, side flags, endpoints of every family combination (v4/v4, v4/v6, v6/v4, v6/v6) symbolic",
+                      "matches() == oracle (each endpoint judged by the list of its own family); config == rule"))
     for s in _cfg:
         _c14.append(H(f"c14::{c}::c14_cfg_{s}", "quick" if (c == "tcp" or s == "111") else "thorough",
                       f"FilterConfig presence pattern port/ip/subnet={s}, each present sub-filter with 1 element per list (IPv4 list elements; endpoints v4 or v6), mode and endpoints symbolic",
@@ -50,7 +54,7 @@ PROPERTIES["C14"] = {
                   "FilterConfig::{new,mode,with_port_filter,with_ip_filter,with_subnet_filter,should_process}",
                   "ipnetwork::Ipv4Network::{new,contains}", "ipnetwork::Ipv6Network::{new,contains}"],
     "bounds": "lists of <= 2 ports, <= 2 ranges per side, <= 2 IPv4 + 1 IPv6 addresses, <= 2 IPv4 + 1 IPv6 networks; unwind 20",
-    "outside": "longer lists; the string builders IpFilter::allow/SubnetFilter::allow (str::parse); mixed-family endpoint pairs",
+    "outside": "longer lists; the string builders IpFilter::allow/SubnetFilter::allow (str::parse); mixed-family endpoint pairs with more than 1+1 list elements",
     "assumptions": ["E1 tracing stub (no subscriber)", "prefix lengths assumed within 0..=32 / 0..=128 (Ipv*Network::new rejects others)"],
 }
 
